@@ -19,6 +19,7 @@
 #include <tins/rawpdu.h>
 #include <algorithm>
 #include <memory>
+#include <unistd.h>
 using namespace Tins;
 using namespace vh;
 using Tins::TCPIP::AckTracker;
@@ -87,6 +88,9 @@ static void set_sack(TCP& tcp, const std::vector<std::string>& w, size_t from) {
 int main() {
     std::unique_ptr<AckTracker> t(new AckTracker());
     return line_loop([&](const std::string& line) -> std::string {
+        // every loop of the tracker is bounded (Props.C19.acked_range_two_iterations): an operation that does not
+        // come back is reported as a fault of that operation (SIGALRM ends the process, the runner attributes it)
+        alarm(5);
         auto w = words(line);
         if (w.empty()) return "bad-op";
         std::string tag = w[0];
